@@ -1999,6 +1999,20 @@ func c9Corpus() []*c9Gen {
 		c9Fixed(`{x="y"} | json | json p="a", p="b"`, base, base+100e9, 100, []c9Entry{{Ts: base + 3, Fp: 1, Labels: x, Msg: `{"b":"1","a":"2"}`}, {Ts: base + 2, Fp: 1, Labels: x, Msg: `{"a":"3","b":"4"}`}, {Ts: base + 1, Fp: 1, Labels: x, Msg: `{"a":"5"}`}, eof}),
 		c9Fixed(`{x="y"} | json | json x="a", q="a", r="c.d", s="c.d[1]", t="c"`, base, base+100e9, 100, []c9Entry{{Ts: base + 3, Fp: 1, Labels: x, Msg: `{"a":"1","c":{"d":[7,8]},"a":"2"}`}, {Ts: base + 2, Fp: 1, Labels: x, Msg: `{"c":{"d":"s"},"c":"t"}`}, {Ts: base + 1, Fp: 1, Labels: x, Msg: `{"c":{"d":[7,8`}, eof}),
 		c9Fixed(`count_over_time({x="y"} | json | json x="a", x="b" [1m])`, base, base+60e9, 100, []c9Entry{{Ts: base + 3, Fp: 1, Labels: x, Msg: `{"b":"1","a":"2"}`}, {Ts: base + 2, Fp: 1, Labels: x, Msg: `{"a":"2","b":"1"}`}, {Ts: base + 1, Fp: 1, Labels: x, Msg: `{"a":"2","b":tru`}, eof}),
+		// label pairs longer than any fixed-size hashing buffer that differ only at their ends: distinct label sets stay
+		// distinct series (seeded C09-4: the fingerprint hashed the first 120 bytes of a pair)
+		c9Fixed(`count_over_time({x="y"} | json [1m])`, base, base+60e9, 100, []c9Entry{
+			{Ts: base + 4, Fp: 1, Labels: x, Msg: `{"path":"/api/v1/` + strings.Repeat("segment/", 20) + `item/1"}`},
+			{Ts: base + 3, Fp: 1, Labels: x, Msg: `{"path":"/api/v1/` + strings.Repeat("segment/", 20) + `item/2"}`},
+			{Ts: base + 2, Fp: 1, Labels: x, Msg: `{"path":"/api/v1/` + strings.Repeat("segment/", 20) + `item/1"}`},
+			{Ts: base + 1, Fp: 1, Labels: x, Msg: `{"` + strings.Repeat("k", 140) + `1":"v"}`},
+			{Ts: base + 0, Fp: 1, Labels: x, Msg: `{"` + strings.Repeat("k", 140) + `2":"v"}`}, eof}),
+		c9Fixed(`sum by (path) (count_over_time({x="y"} | json [1m]))`, base, base+60e9, 100, []c9Entry{
+			{Ts: base + 4, Fp: 1, Labels: x, Msg: `{"path":"` + strings.Repeat("p", 300) + `a"}`},
+			{Ts: base + 3, Fp: 1, Labels: x, Msg: `{"path":"` + strings.Repeat("p", 300) + `b"}`}, eof}),
+		c9Fixed(`{x="y"} | json`, base, base+100e9, 100, []c9Entry{
+			{Ts: base + 2, Fp: 1, Labels: x, Msg: `{"path":"` + strings.Repeat("p", 127) + `a"}`},
+			{Ts: base + 1, Fp: 1, Labels: x, Msg: `{"path":"` + strings.Repeat("p", 127) + `b"}`}, eof}),
 		// logfmt with several parameters: two names for one key (the later wins), an index-first expression, a longer path
 		c9Fixed(`{x="y"} | logfmt p="a", q="a", r="[0]", s="b.c", x="d"`, base, base+100e9, 100, []c9Entry{{Ts: base + 3, Fp: 1, Labels: x, Msg: `a=1 b=2 d=3`}, {Ts: base + 2, Fp: 1, Labels: x, Msg: `b=5 a="6`}, eof}),
 	}...)
